@@ -43,6 +43,11 @@ Theorem C02_wavelet_2d : forall (R : StarRing) level L n1 n2 (flo fhi glo ghi : 
 Proof. exact wavedec2_wf. Qed.
 Print Assumptions C02_wavelet_2d.
 
+Theorem C02_wavelet_3d : forall (R : StarRing) level L n1 n2 n3 (flo fhi glo ghi : nat -> R), (2 <= L)%nat -> (1 <= n1)%nat -> (1 <= n2)%nat -> (1 <= n3)%nat ->
+  wf (wavedec3_op level L n1 n2 n3 flo fhi glo ghi).
+Proof. exact wavedec3_wf. Qed.
+Print Assumptions C02_wavelet_3d.
+
 (* N-D: an operator applied along one axis of a row-major (pre, n, post) tensor stays linear *)
 Theorem C02_along_axis : forall (R : StarRing) pre post (A : linop R),
   (0 < post)%nat -> (0 < dom A)%nat -> (0 < ran A)%nat -> wf A -> wf (along pre post A).
